@@ -3,8 +3,15 @@ C12 — "Bin coordinates, lines of response and detector positions agree".
 Property theorems over the model of `Model.lean`.  All of them hold for every (even) number of detectors, every number
 of rings / segments / views / tangential positions / TOF bins and every (rational or real) sampling distance — no bounds.
 What is *not* a theorem (floating-point evaluation of the trigonometric coordinates, the LOR representation changes of
-LORCoordinates.inl in floating point, detector coordinates of blocks/generic scanners) is covered by the correspondence
-run of checks/c12.py only.
+LORCoordinates.inl in floating point, detector coordinates of blocks/generic scanners and their `get_bin`,
+`overlap_interpolate` / arc correction of rows) is covered by the correspondence run and the oracle of checks/c12.py only.
+
+The model describes the code after the fixes C12-1 … C12-5 (build/fixes).  Clauses of the property that the code does not
+satisfy (known findings, not repaired) have a negative witness `…_fails` and the positive theorem is named `…_partial`:
+* `roundtrip:miss-at-tangential-edge`            → `C12_roundtrip_miss_at_tangential_edge_fails`, `C12_roundtrip_inside_tangential_range_partial`
+* `obliqueness:ring-pair-list-cut-at-axial-edge` → `C12_obliqueness_cut_at_axial_edge_fails`, `C12_obliqueness_is_average_partial`
+* `obliqueness:even-number-of-ring-differences-per-segment` → `C12_obliqueness_even_span_fails`, same `_partial` theorem
+* `generic:get_bin-needs-exact-crystal-coordinates` → oracle only (the crystal map is data, its look-up is not modelled)
 -/
 import StirVerif.C12.ProofsTrans
 import StirVerif.C12.ProofsChord
@@ -12,6 +19,8 @@ import StirVerif.C12.ProofsAxial
 import StirVerif.C12.ProofsTof
 import StirVerif.C12.ProofsArc
 import StirVerif.C12.ProofsOverlap
+import StirVerif.C12.ProofsObliq
+import StirVerif.C12.ProofsRt
 
 namespace StirVerif.C12
 open Real
@@ -62,7 +71,7 @@ theorem C12_s_noarc_monotone (R : ℝ) (hR : 0 < R) (m tp tp' : ℤ) (hm : 0 < m
     `tp`, half-way between two detectors for odd `tp`, where the floating-point rounding may go either way (`e1,e2 ∈ {0,1}`;
     this — `|ψ_float - ψ| < π/(2N)` — is the stated assumption about the float evaluation).
     `StepClose`: same flag and `|Δview| ≤ 1`, `|Δtp| ≤ 1`, or detectors exchanged (segment and TOF bin change sign),
-    view `N/2-1 ↔ 0` and `|tp' + tp| ≤ 1`. -/
+    view `N/2-1 ↔ 0` and `tp' = -tp`.  (No tangential range here: whether `tp'` is inside the data is the next theorem.) -/
 theorem C12_nearest_detector_roundtrip (m v tp e1 e2 : Int) (hm : 0 < m) (hv : 0 ≤ v ∧ v < m) (ht : -m < tp ∧ tp < m)
     (he1 : e1 = 0 ∨ e1 = 1) (he2 : e2 = 0 ∨ e2 = 1) (hodd : tp % 2 = 1 ∨ (e1 = 0 ∧ e2 = 0))
     (hne : moduloInt ((viewTangToDet (2 * m) v tp).1 + e1) (2 * m) ≠ moduloInt ((viewTangToDet (2 * m) v tp).2 + e2) (2 * m)) :
@@ -71,10 +80,59 @@ theorem C12_nearest_detector_roundtrip (m v tp e1 e2 : Int) (hm : 0 < m) (hv : 0
   nearest_detector_roundtrip m v tp e1 e2 hm hv ht he1 he2 hodd hne
 
 /-- the excluded case is real: at the extreme tangential position `tp = N/2 - 1` (N = 8, view 0) rounding one end point
-    up makes both end points the same detector — the source then reads a table entry it never initialised
-    (harness: KNOWN-CANDIDATE `roundtrip:coincident-nearest-detectors-at-extreme-tangential-position`) -/
+    up makes both end points the same detector; the repaired `get_bin` (fix C12-1) reports a miss then (it used to read a
+    table entry that is never written) — see `C12_roundtrip_miss_at_tangential_edge_fails` below -/
 theorem C12_coincident_detectors_witness :
     moduloInt ((viewTangToDet 8 0 3).1 + 1) 8 = moduloInt ((viewTangToDet 8 0 3).2 + 0) 8 := by decide
+
+/-- … and it happens only there: both end points can round to the same detector only for `|tp| ≥ N/2 - 1` -/
+theorem C12_coincident_only_at_extreme (m v tp e1 e2 : Int) (hm : 0 < m) (hv : 0 ≤ v ∧ v < m) (ht : -m < tp ∧ tp < m)
+    (he1 : e1 = 0 ∨ e1 = 1) (he2 : e2 = 0 ∨ e2 = 1)
+    (heq : moduloInt ((viewTangToDet (2 * m) v tp).1 + e1) (2 * m) = moduloInt ((viewTangToDet (2 * m) v tp).2 + e2) (2 * m)) :
+    tp ≤ -(m - 1) ∨ m - 1 ≤ tp :=
+  coincident_only_at_extreme m v tp e1 e2 hm hv ht he1 he2 heq
+
+/-- "… at most one step away in view … and tangential position …, or reports that the line misses the scanner, which
+    happens only for axially compressed bins at the axial edge" — transaxial part, PARTIAL: for a bin that is **not at the
+    first or last tangential position of the data** (`minT < tp < maxT`; ranges as STIR builds them: `minT + maxT ∈ {-1,0}`
+    (we allow 1 too), inside `(-N/2, N/2)`), whatever the rounding does, the two nearest detectors differ, the bin found is
+    one step away at most, and its tangential position is inside the data: no miss for transaxial reasons.
+    What is missing: the first/last tangential position, where the property's clause is false (next theorem). -/
+theorem C12_roundtrip_inside_tangential_range_partial (m v tp e1 e2 minT maxT : Int) (hm : 0 < m) (hv : 0 ≤ v ∧ v < m)
+    (he1 : e1 = 0 ∨ e1 = 1) (he2 : e2 = 0 ∨ e2 = 1) (hodd : tp % 2 = 1 ∨ (e1 = 0 ∧ e2 = 0))
+    (hmin : -m < minT) (hmax : maxT < m) (hsym : -1 ≤ minT + maxT ∧ minT + maxT ≤ 1) (hin : minT < tp ∧ tp < maxT) :
+    moduloInt ((viewTangToDet (2 * m) v tp).1 + e1) (2 * m) ≠ moduloInt ((viewTangToDet (2 * m) v tp).2 + e2) (2 * m) ∧
+    StepClose m v tp (detToViewTang (2 * m) (moduloInt ((viewTangToDet (2 * m) v tp).1 + e1) (2 * m))
+      (moduloInt ((viewTangToDet (2 * m) v tp).2 + e2) (2 * m))) ∧
+    minT ≤ (detToViewTang (2 * m) (moduloInt ((viewTangToDet (2 * m) v tp).1 + e1) (2 * m))
+      (moduloInt ((viewTangToDet (2 * m) v tp).2 + e2) (2 * m))).2.1 ∧
+    (detToViewTang (2 * m) (moduloInt ((viewTangToDet (2 * m) v tp).1 + e1) (2 * m))
+      (moduloInt ((viewTangToDet (2 * m) v tp).2 + e2) (2 * m))).2.1 ≤ maxT :=
+  roundtrip_inside_tangential_range m v tp e1 e2 minT maxT hm hv he1 he2 hodd hmin hmax hsym hin
+
+/-- the same for the function the driver executes for every `rt` operation: **every** answer that the model's
+    `get_bin ∘ get_LOR` (`CylGeom.roundTrip`: exact angles, every admissible rounding of a half-way end point; data without
+    view mashing, any number of rings / segments / TOF) lists is a miss or a bin at most one step away in view and tangential
+    position (with the last-view/first-view sign reversal) whose tangential position is inside the data.
+    (Segment, axial position and TOF bin of the answer are compared with the code by the correspondence and checked by the
+    oracle, they are not part of this theorem.) -/
+theorem C12_roundtrip_model_transaxial (g : CylGeom) (m : Int) (b : Bin) (hN : g.N = 2 * m) (hm : 0 < m) (hmash : g.mash = 1)
+    (hv : 0 ≤ b.view ∧ b.view < m) (ht : -m < b.tang ∧ b.tang < m) (r : RtResult) (hr : r ∈ g.roundTrip b) :
+    r = RtResult.miss ∨ ∃ nb flag, r = RtResult.bin nb ∧ StepClose m b.view b.tang (nb.view, nb.tang, flag) ∧
+      g.minTang ≤ nb.tang ∧ nb.tang ≤ g.maxTang :=
+  roundTrip_stepClose g m b hN hm hmash hv ht r hr
+
+/-- the smallest geometry of the known finding `roundtrip:miss-at-tangential-edge`: 8 detectors, 1 ring, span 1, 4 views,
+    3 tangential positions -1 … 1 (neither axially compressed nor at an axial edge) -/
+def exEdgeGeom : CylGeom :=
+  { N := 8, R := 1, mash := 1, minTang := -1, maxTang := 1, minSeg := 0, segs := [⟨0, 0, 1⟩], tof := none }
+
+/-- NEGATIVE WITNESS (known finding `roundtrip:miss-at-tangential-edge`): "reports that the line misses the scanner,
+    which happens only for axially compressed bins at the axial edge" is false: `miss` is one of the results that
+    `get_bin (get_LOR b)` may give (depending on how the floating-point rounding of the half-way end points goes) for the
+    bin (segment 0, view 3, axial position 0, tangential position -1) of `exEdgeGeom`; the real code does return it. -/
+theorem C12_roundtrip_miss_at_tangential_edge_fails :
+    RtResult.miss ∈ exEdgeGeom.roundTrip ⟨0, 3, 0, -1, 0⟩ := by decide +kernel
 
 /-! ## axial coordinate and obliqueness -/
 
@@ -106,6 +164,46 @@ theorem C12_m_is_average_over_ring_pairs (spacing : Rat) (R : Int) (s : Seg) (of
 theorem C12_ring_differences_in_segment (R : Int) (s : Seg) (off a r1 r2 : Int) (h : (r1, r2) ∈ s.ringPairsOf R off a) :
     s.minRD ≤ r2 - r1 ∧ r2 - r1 ≤ s.maxRD :=
   ringPairs_rd_range R s off a r1 r2 h
+
+/-- "… and obliqueness match (averaged over the contributing pairs for compressed data)" — PARTIAL: the ring difference
+    averaged over the ring pairs of (segment, axial position) is the segment's nominal `(min+max)/2` (which `get_tantheta`
+    multiplies by `ring_spacing / (2 sqrt(R² - s²))`) provided that (1) the segment has an odd number of ring differences
+    (`max - min` even: odd span) and (2) every ring difference of the segment of the parity of the ring sum gives a ring
+    pair inside the scanner (`InScanner`: the list is not cut at the axial edge).  These two hypotheses exclude exactly the
+    two known findings, for which the clause is false (next two theorems). -/
+theorem C12_obliqueness_is_average_partial (R : Int) (s : Seg) (off a : Int)
+    (hodd : (s.maxRD - s.minRD) % 2 = 0)
+    (hcomplete : ∀ rd, s.minRD ≤ rd → rd ≤ s.maxRD → (s.ringSum off a + rd) % 2 = 0 → InScanner R (s.ringSum off a) rd)
+    (hne : s.ringPairsOf R off a ≠ []) :
+    avgRDCompressed R s off a = s.avgRD :=
+  avgRDCompressed_eq_avgRD R s off a hodd hcomplete hne
+
+/-- NEGATIVE WITNESS (known finding `obliqueness:ring-pair-list-cut-at-axial-edge`): 5 rings, span 3, segment +1
+    (ring differences 2 … 4), axial position 0: the only contributing ring pair is (0,2), ring difference 2, whereas the
+    nominal value used by `get_tantheta` is 3 -/
+theorem C12_obliqueness_cut_at_axial_edge_fails :
+    (⟨2, 4, 5⟩ : Seg).axOff 5 = some 2 ∧ (⟨2, 4, 5⟩ : Seg).ringPairsOf 5 2 0 = [(0, 2)] ∧
+      avgRDCompressed 5 ⟨2, 4, 5⟩ 2 0 = 2 ∧ (⟨2, 4, 5⟩ : Seg).avgRD = 3 := by decide +kernel
+
+/-- NEGATIVE WITNESS (known finding `obliqueness:even-number-of-ring-differences-per-segment`): 6 rings, span 2,
+    segment +1 (ring differences 2 … 3), axial position 2 in the middle of the segment: the only contributing ring pair
+    is (1,3), ring difference 2, whereas the nominal value is 5/2 (axial position 3: (1,4), ring difference 3) -/
+theorem C12_obliqueness_even_span_fails :
+    (⟨2, 3, 7⟩ : Seg).axOff 6 = some 2 ∧ (⟨2, 3, 7⟩ : Seg).ringPairsOf 6 2 2 = [(1, 3)] ∧
+      avgRDCompressed 6 ⟨2, 3, 7⟩ 2 2 = 2 ∧ avgRDCompressed 6 ⟨2, 3, 7⟩ 2 3 = 3 ∧ (⟨2, 3, 7⟩ : Seg).avgRD = 5 / 2 := by
+  decide +kernel
+
+/-- "opposite segments have opposite obliqueness", segment 0 (its own opposite): in the table of `ProjDataInfoCTI`
+    (repaired code, fix C12-2: `max_delta ≥ span/2` is required) segment 0 has ring differences `-span/2 … span/2`, average 0 -/
+theorem C12_segment0_symmetric (span maxDelta R minSeg : Int) (segs : List Seg)
+    (h : ctiSegments span maxDelta R = some (minSeg, segs)) :
+    ∃ s0, segAt minSeg segs 0 = some s0 ∧ s0.minRD = -s0.maxRD ∧ s0.avgRD = 0 :=
+  cti_segment0 span maxDelta R minSeg segs h
+
+/-- the configuration of the repaired defect (even span 4, `max_delta = span/2 - 1 = 1`, 5 rings), which used to give
+    segment 0 the ring differences -2 … 1, is rejected; span 4 with `max_delta = 2` gives -2 … 2 -/
+theorem C12_even_span_clipped_segment0_rejected :
+    ctiSegments 4 1 5 = none ∧ ctiSegments 4 2 5 = some (0, [⟨-2, 2, 9⟩]) := by decide
 
 /-- "opposite segments have opposite obliqueness": in the table of `ProjDataInfoCTI`, segment `-k` is the mirror image of
     segment `k`: opposite average ring difference (`get_tantheta` is that times `ring_spacing / (2 sqrt(R² - s²))`),
@@ -151,9 +249,10 @@ theorem C12_tof_beyond_last_goes_to_first (T : TofTable) (hinc : 0 < T.inc) (hod
 
 /-- "for every bin, converting its reported line of response back to a bin returns the same bin for arc-corrected data"
     — in exact arithmetic, for every well-formed geometry (any azimuthal offset: both the plain and the flipped
-    representation of the LOR, the latter undone by the view-wrap rule of `get_bin`) and every bin with TOF position 0 -/
+    representation of the LOR, the latter undone by the view-wrap rule of `get_bin`), TOF or not, and every bin of the data
+    (every TOF position: `get_bin` is given `get_tof_delta_time(bin)` as in the harness; repaired code, fix C12-3) -/
 theorem C12_arccorr_roundtrip (g : ArcGeom) (w : g.WF) (b : Bin) (sg : Seg) (r : g.InRange b sg) (l : LorS)
-    (hl : g.lorOf b = some l) : g.getBin l = some b :=
+    (hl : g.lorOf b = some l) : g.getBin l (g.deltaTime b.tof) = some b :=
   arccorr_roundtrip g w b sg r l hl
 
 /-- "arc-corrected data have uniform tangential sampling" (and `get_s` is antisymmetric and increasing) -/
@@ -161,6 +260,17 @@ theorem C12_arccorr_uniform_sampling (binSize : Rat) (h : 0 < binSize) (tp tp' :
     sArc binSize (tp + 1) - sArc binSize tp = binSize ∧ samplingS (sArc binSize) tp = binSize ∧
       sArc binSize (-tp) = -sArc binSize tp ∧ sArc binSize tp < sArc binSize tp' :=
   ⟨(sArc_uniform binSize h tp).1, (sArc_uniform binSize h tp).2, sArc_antisym binSize tp, sArc_strictMono binSize h tp tp' hlt⟩
+
+/-- "arc correction maps uniform data to uniform data": the output boxes that `ArcCorrection::set_up` gives to
+    `overlap_interpolate` are `[(tp - 1/2)·sampling, (tp + 1/2)·sampling]` for every `tp`, **including the last one**
+    (repaired code, fix C12-5; it used to end at `(tp + 3/2)·sampling`).  What `overlap_interpolate` does with them is
+    tied to the code by correspondence and oracle only. -/
+theorem C12_arccorr_boxes (minTang maxTang : Int) (sampling : Rat) (tp : Int) (h1 : minTang ≤ tp) (h2 : tp ≤ maxTang) :
+    (arcCorrCoords minTang maxTang sampling)[(tp - minTang).toNat]? = some (((tp : Rat) - 1/2) * sampling) ∧
+    (arcCorrCoords minTang maxTang sampling)[(tp - minTang).toNat + 1]? = some (((tp : Rat) + 1/2) * sampling) ∧
+    (arcCorrCoords minTang maxTang sampling).length = (maxTang - minTang + 1).toNat + 1 :=
+  ⟨(arcCorrCoords_box minTang maxTang sampling tp h1 h2).1, (arcCorrCoords_box minTang maxTang sampling tp h1 h2).2,
+    arcCorrCoords_length minTang maxTang sampling⟩
 
 /-! ## non-vacuity -/
 
@@ -209,9 +319,10 @@ theorem C12_ex_wellformed : exGeom.WF where
     rcases C12_ex_segments s a ha with ⟨rfl, rfl⟩ | ⟨rfl, rfl⟩ | ⟨rfl, rfl⟩ <;>
     rcases C12_ex_segments s' b hb with ⟨rfl, rfl⟩ | ⟨rfl, rfl⟩ | ⟨rfl, rfl⟩ <;>
     first | (exfalso; omega) | decide
+  htof := by intro T h; have hn : exGeom.tof = none := rfl; rw [hn] at h; exact absurd h (by simp)
 
 /-- … and a bin of it; hence its LOR is converted back to it -/
-example : ∀ l, exGeom.lorOf ⟨1, 0, 2, -3, 0⟩ = some l → exGeom.getBin l = some ⟨1, 0, 2, -3, 0⟩ :=
+example : ∀ l, exGeom.lorOf ⟨1, 0, 2, -3, 0⟩ = some l → exGeom.getBin l (exGeom.deltaTime 0) = some ⟨1, 0, 2, -3, 0⟩ :=
   fun l hl => C12_arccorr_roundtrip exGeom C12_ex_wellformed ⟨1, 0, 2, -3, 0⟩ ⟨2, 4, 5⟩
     { hseg := by decide, hv := by decide, ha := by decide, ht := by decide, htof := rfl } l hl
 
@@ -230,5 +341,53 @@ example : (⟨2, 4, 5⟩ : Seg).axOff 5 = some 2 ∧ (⟨2, 4, 5⟩ : Seg).ringP
 
 example : (⟨2, 4, 5⟩ : Seg).getM 4 2 = 0 ∧ (⟨2, 4, 5⟩ : Seg).avgRD = 3 := by
   norm_num [Seg.getM, Seg.axialSampling, Seg.mOffset, Seg.inc, Seg.avgRD]
+
+/-- … and the hypotheses of `C12_obliqueness_is_average_partial` hold there (ring sum 4: ring differences 2 and 4 give the
+    ring pairs (1,3), (0,4) inside the 5 rings), so the averaged ring difference is the nominal 3 -/
+example : avgRDCompressed 5 ⟨2, 4, 5⟩ 2 2 = (⟨2, 4, 5⟩ : Seg).avgRD :=
+  C12_obliqueness_is_average_partial 5 ⟨2, 4, 5⟩ 2 2 (by decide)
+    (by
+      intro rd h1 h2 h3
+      have hs : (⟨2, 4, 5⟩ : Seg).ringSum 2 2 = 4 := by decide
+      rw [hs] at h3 ⊢
+      simp only [] at h1 h2
+      have : rd = 2 ∨ rd = 4 := by omega
+      rcases this with rfl | rfl <;> (unfold InScanner; decide))
+    (by decide)
+
+/-- hypotheses of `C12_roundtrip_inside_tangential_range_partial` are satisfiable: 16 detectors, data range -4 … 3 (8
+    tangential positions), bin at view 7 (the last), odd tangential position -3, both end points rounded up: the bin
+    found is in view 0 with tangential position +3 and exchanged detectors (sign reversal), inside the range -/
+example : detToViewTang 16 (moduloInt ((viewTangToDet 16 7 (-3)).1 + 1) 16) (moduloInt ((viewTangToDet 16 7 (-3)).2 + 1) 16)
+    = (0, 3, false) := by decide
+
+/-- the hypotheses of `C12_roundtrip_model_transaxial` hold for the bin of the negative witness (8 = 2·4 detectors, no
+    mashing, view 3 < 4, tangential position -1): its answers are the bin itself, one step in tangential position, the
+    wrapped neighbour (view 0, tangential position +1) — and the miss -/
+example : exEdgeGeom.N = 2 * 4 ∧ exEdgeGeom.mash = 1 ∧
+    exEdgeGeom.roundTrip ⟨0, 3, 0, -1, 0⟩ =
+      [.bin ⟨0, 3, 0, -1, 0⟩, .miss, .bin ⟨0, 3, 0, 0, 0⟩, .bin ⟨0, 0, 0, 1, 0⟩] := by decide +kernel
+
+/-- a TOF arc-corrected geometry satisfying the hypotheses of `C12_arccorr_roundtrip` (5 TOF bins -2 … 2 of 15 mm), and a
+    bin with a non-zero TOF position -/
+def exGeomTof : ArcGeom := { exGeom with tof := some ⟨1, -2, 2, 5, 15⟩ }
+
+theorem C12_ex_tof_wellformed : exGeomTof.WF :=
+  { C12_ex_wellformed with
+    htof := by
+      intro T h
+      have hT : exGeomTof.tof = some ⟨1, -2, 2, 5, 15⟩ := rfl
+      rw [hT] at h
+      injection h with h
+      subst h
+      constructor
+      · norm_num
+      · decide }
+
+example : ∀ l, exGeomTof.lorOf ⟨1, 0, 2, -3, -2⟩ = some l →
+    exGeomTof.getBin l (exGeomTof.deltaTime (-2)) = some ⟨1, 0, 2, -3, -2⟩ :=
+  fun l hl => C12_arccorr_roundtrip exGeomTof C12_ex_tof_wellformed ⟨1, 0, 2, -3, -2⟩ ⟨2, 4, 5⟩
+    { hseg := by decide, hv := by decide, ha := by decide, ht := by decide,
+      htof := by show (-2 : Int) ≤ -2 ∧ (-2 : Int) ≤ 2; decide } l hl
 
 end StirVerif.C12
